@@ -246,7 +246,7 @@ fn validate_data(
             for (index, fields_schema) in constructors.iter() {
                 if let Ok(fields) = expect_data_constr(term, *index) {
                     if fields_schema.len() != fields.len() {
-                        panic!("fields length different");
+                        continue;
                     }
 
                     for (instance, schema) in iter::zip(fields, fields_schema) {
